@@ -214,6 +214,8 @@ func (d *Encoder) flushValue(tok *Token) error {
 	case TNull:
 		d.wr.Write(wordNull)
 		return nil
+	case TBytes:
+		return fmt.Errorf("unsupported token: json cannot represent byte strings")
 	default:
 		panic("unreachable")
 	}
